@@ -3,7 +3,8 @@
     source's zero-frequency guard, haplotype block values and the optimal-haploid-value table
     (ploidy * sum over blocks of the best block value over the parents and phases of a cross, looked up through the
     cross map), the cross maps (triudix / triuix for two parents), the L1 tensor, the usefulness criterion
-    (parental mean . epgc + intensity * sqrt(variance); the square root is compared through its square).
+    (contribution-weighted parental mean + intensity * sqrt(variance), the contribution vector being an argument; the square
+    root is compared through its square).
     Population: phased alleles hap[phase][taxon][locus], effects u[locus][trait], intercept beta[trait].  Definitions only. *)
 From PV Require Import Lib.Common Model.C05_Latent.
 Local Open Scope Q_scope.
@@ -41,8 +42,22 @@ Definition ohvmat_def (hap : list (list (list Z))) (u : list (list Q)) (bounds :
 Definition l1_tensor (hap : list (list (list Z))) (w tf : list (list Q)) (n p t : nat) : list (list (list Q)) :=
   map (fun q => map (fun j => map (fun i => mget w j q * (zq (dosage hap i j) / zq (Z.of_nat (length hap)) - mget tf j q)) (seq 0 n)) (seq 0 p)) (seq 0 t).
 
-(** usefulness criterion of one cross: parental mean . epgc + intensity * sqrt(var): returned as (mean part, squared rest) *)
+(** usefulness criterion.  The progeny mean of a cross as coded:  pmean = epgc.dot(bvmat[cconfig,:])  — the expected
+    parental genome contributions [epgc] are an ARGUMENT of the model (written down by the harness per variance-matrix
+    factory: two-way / dihybrid (1/2,1/2); three-way (1/2,1/4,1/4) for (recurrent, female, male); four-way (1/4,1/4,1/4,1/4)),
+    in the column order of the cross map. *)
+Definition uc_mean (bv : list (list Q)) (epgc : list Q) (parents : list nat) (q : nat) : Q :=
+  qsum (map2 (fun e i => e * mget bv i q) epgc parents).
+(** one cross: pmean + intensity * sqrt(pvar): returned as (mean part, squared rest) — sqrt is compared through its square *)
 Definition uc_parts (bv : list (list Q)) (epgc : list Q) (si : Q) (var : list Q) (t : nat) (parents : list nat) : list (Q * Q) :=
-  map (fun q => (qsum (map2 (fun e i => e * mget bv i q) epgc parents), si * si * nth q var 0)) (seq 0 t).
+  map (fun q => (uc_mean bv epgc parents q, si * si * nth q var 0)) (seq 0 t).
+(** the same with the progeny standard deviations given (sigma_q * sigma_q = var_q): the table ucmat of a UC problem *)
+Definition uc_row (bv : list (list Q)) (epgc : list Q) (si : Q) (sigma : list Q) (t : nat) (parents : list nat) : list Q :=
+  map (fun q => uc_mean bv epgc parents q + si * nth q sigma 0) (seq 0 t).
+Definition ucmat_of (bv : list (list Q)) (epgc : list Q) (si : Q) (sigmas : list (list Q)) (t : nat) (xmap : list (list nat)) : list (list Q) :=
+  map2 (fun parents sigma => uc_row bv epgc si sigma t parents) xmap sigmas.
+(** the plain mean of the parents' breeding values, and uniform contributions *)
+Definition plain_mean (bv : list (list Q)) (parents : list nat) (q : nat) : Q := qsum (map (fun i => mget bv i q) parents) / nq (length parents).
+Definition uniform (m : nat) : list Q := repeat (1 / nq m) m.
 Definition uc_ok (impl : list Q) (parts : list (Q * Q)) : bool :=
   all2 (fun v pr => let d := v - fst pr in Qle_bool (- tol30) d && Qclose (d * d) (snd pr)) impl parts.
